@@ -386,7 +386,15 @@ class SymRound:
     def __eq__(self, o):
         if isinstance(o, SymRound):
             raise Inconclusive("comparison of two lazily rounded symbolic values")
+        if isinstance(o, int) and not isinstance(o, bool):
+            # round-half-even(x) == k as a predicate on x (no case split needed)
+            x, half = zr_real(self.sv), z3.RealVal("1/2")
+            return SB(z3.Or(z3.And(x > o - half, x < o + half), z3.And(x == o - half, o % 2 == 0), z3.And(x == o + half, o % 2 == 0)))
         return int(self) == o
+
+    def __ne__(self, o):
+        r = self.__eq__(o)
+        return ~r if isinstance(r, SB) else (not r)
 
     def __int__(self):
         return self.sv._split("round")
@@ -1054,6 +1062,25 @@ class float_shadow(float, metaclass=_FloatShadowMeta):
         if is_sym(x):
             return x.re if isinstance(x, CV) and _num(x.im) and x.im == 0 else x
         return float(x)
+
+
+class _ComplexShadowMeta(type):
+    def __instancecheck__(cls, obj):
+        return isinstance(obj, complex)
+
+    def __subclasscheck__(cls, sub):
+        return issubclass(sub, complex)
+
+
+class complex_shadow(complex, metaclass=_ComplexShadowMeta):
+    """module-global shadow of the builtin complex (see float_shadow)"""
+
+    def __new__(cls, *a):
+        if len(a) == 1 and is_sym(a[0]):
+            return CV.lift(a[0])
+        if len(a) == 2 and (is_sym(a[0]) or is_sym(a[1])):
+            return CV(a[0], a[1])
+        return complex(*a)
 
 
 def real_var(name):
